@@ -225,6 +225,25 @@ func w6PathFields(rng *rand.Rand) map[string]string {
 	if rng.Intn(4) == 0 {
 		f["overridePublisher"] = []string{"true", "false"}[rng.Intn(2)]
 	}
+	// parameters a live path takes over in place
+	if rng.Intn(3) == 0 {
+		f["recordPartDuration"] = []string{`"1s"`, `"2s"`, `"500ms"`}[rng.Intn(3)]
+	}
+	if rng.Intn(3) == 0 {
+		f["rpiCameraBrightness"] = []string{`0`, `0.25`, `0.5`}[rng.Intn(3)]
+	}
+	return f
+}
+
+// w6HotFields: only parameters that a live path applies without being re-created.
+func w6HotFields(rng *rand.Rand, uniq int) map[string]string {
+	f := map[string]string{"rpiCameraContrast": fmt.Sprintf("%d.5", 1+uniq%9)}
+	if rng.Intn(2) == 0 {
+		f["recordPartDuration"] = []string{`"1s"`, `"2s"`, `"500ms"`}[rng.Intn(3)]
+	}
+	if rng.Intn(3) == 0 {
+		f["recordDeleteAfter"] = []string{`"24h"`, `"48h"`}[rng.Intn(2)]
+	}
 	return f
 }
 
@@ -322,8 +341,15 @@ func (w *w6World) Gen(rng *rand.Rand, property, tier string) (any, simrt.Sched) 
 			}
 			bu.Steps = append(bu.Steps, st)
 		}
+		if rng.Intn(6) == 0 {
+			// a burst of patches of one live path that only touch parameters applied in place
+			bu.Steps = nil
+			for j, n := 0, 2+rng.Intn(2); j < n; j++ {
+				bu.Steps = append(bu.Steps, w6Step{Kind: "ppatch", Name: "p1", GapMs: []int64{0, 0, 0, 1}[rng.Intn(4)], Set: w6HotFields(rng, i*4+j)})
+			}
+		}
 		if rng.Intn(12) == 0 {
-			bu.Fail = []string{"rtsp.Server", "rtmp.Server", "hls.Server", "webrtc.Server", "srt.Server", "moq.Server", "api.API", "metrics.Metrics", "pprof.PPROF", "playback.Server"}[rng.Intn(10)]
+			bu.Fail =[]string{"rtsp.Server", "rtmp.Server", "hls.Server", "webrtc.Server", "srt.Server", "moq.Server", "api.API", "metrics.Metrics", "pprof.PPROF", "playback.Server"}[rng.Intn(10)]
 		}
 		b.Bursts = append(b.Bursts, bu)
 	}
@@ -389,6 +415,9 @@ type w6SlotState struct {
 	addr uintptr
 	args map[string]string // key -> canonical text ("" map when the slot is empty)
 	info *comprec.Info     // nil for real components
+	// path manager only: the live paths and the configuration each runs with
+	pathNames []string
+	pathConfs map[string]string
 }
 
 type w6Snapshot struct {
@@ -452,6 +481,25 @@ func w6Snap(p *Core, plan *w6Plan, past []w6Past) *w6Snapshot {
 			}
 			st.args[k] = comprec.Render(f, namer)
 		}
+		if n == "pathManager" {
+			// the configuration every live path runs with (paths apply reloads in place)
+			if pm := ev.FieldByName("paths"); pm.IsValid() && pm.Kind() == reflect.Map {
+				var names []string
+				confs := map[string]string{}
+				it := pm.MapRange()
+				for it.Next() {
+					pa := it.Value()
+					if pa.Kind() == reflect.Pointer && !pa.IsNil() {
+						if cf := pa.Elem().FieldByName("conf"); cf.IsValid() {
+							names = append(names, it.Key().String())
+							confs[it.Key().String()] = comprec.Render(cf, namer)
+						}
+					}
+				}
+				sort.Strings(names)
+				st.pathNames, st.pathConfs = names, confs
+			}
+		}
 		if v.CanInterface() {
 			st.info = comprec.Lookup(v.Interface())
 		} else {
@@ -492,6 +540,36 @@ func w6Short(s string) string {
 		return s[:160] + "..."
 	}
 	return s
+}
+
+// w6Diff shows two long renderings around their first difference.
+func w6Diff(a, b string) (string, string) {
+	if len(a) <= 160 && len(b) <= 160 {
+		return a, b
+	}
+	i := 0
+	for i < len(a) && i < len(b) && a[i] == b[i] {
+		i++
+	}
+	from := i - 60
+	if from < 0 {
+		from = 0
+	}
+	cut := func(s string) string {
+		to := i + 100
+		if to > len(s) {
+			to = len(s)
+		}
+		if from >= len(s) {
+			return "(ends earlier)"
+		}
+		pre := ""
+		if from > 0 {
+			pre = "..."
+		}
+		return pre + s[from:to] + "..."
+	}
+	return cut(a), cut(b)
 }
 
 // ---------------------------------------------------------------------------
@@ -544,6 +622,7 @@ func (w *w6World) Run(t *testing.T, sc *simrt.Scenario, cfg simrt.Config) simrt.
 			if universe == 1 && failKind != "" && kind == failKind {
 				failKind = ""
 				failFired++
+				simrt.Count("fault.component-start-failure", 1)
 				simrt.Rec("comp.fail", kind, "", 0, 0, 0)
 				return fmt.Errorf("simulated start failure of %s", kind)
 			}
@@ -624,8 +703,31 @@ func (w *w6World) Run(t *testing.T, sc *simrt.Scenario, cfg simrt.Config) simrt.
 						if strings.Contains(c.args[k], "@stale:") || k == "~told-about" || strings.Contains(f.args[k], "@") {
 							clause = "stale-reference"
 						}
+						da, db := w6Diff(c.args[k], f.args[k])
 						simrt.Violate("C13", clause, "%s: %s.%s is %s, a fresh start on the same configuration gives %s",
-							where, n, k, w6Short(c.args[k]), w6Short(f.args[k]))
+							where, n, k, da, db)
+						return false
+					}
+				}
+			}
+			// (A, paths) the path manager applies path parameters in place: every path a fresh start
+			// creates is live, and every live path runs with the entry that resolves its name now
+			if c, f := cur.slots["pathManager"], fresh.slots["pathManager"]; c != nil && f != nil && c.addr != 0 {
+				for _, pn := range f.pathNames {
+					if _, ok2 := c.pathConfs[pn]; !ok2 {
+						simrt.Violate("C13", "stale-parameter", "%s: a fresh start on the same configuration has a path %q, the running path manager has none", where, pn)
+						return false
+					}
+				}
+				for _, pn := range c.pathNames {
+					want, _, err2 := conf.FindPathConf(cur.conf.Paths, pn)
+					if err2 != nil {
+						simrt.Violate("C13", "stale-parameter", "%s: live path %q has no entry in the configuration in force (%v)", where, pn, err2)
+						return false
+					}
+					if w := comprec.Render(reflect.ValueOf(want), nil); w != c.pathConfs[pn] {
+						da, db := w6Diff(c.pathConfs[pn], w)
+						simrt.Violate("C13", "stale-parameter", "%s: live path %q runs with %s, the entry of the configuration in force for it is %s", where, pn, da, db)
 						return false
 					}
 				}
